@@ -315,6 +315,10 @@ impl UWorld {
                             .build()
                             .unwrap();
                         rt.block_on(async {
+                            // off the millisecond grid of the timer wheel: a zero timeout that is
+                            // sent through the runtime's timer instead of being decided at once then
+                            // shows as a `Pending` on the first poll
+                            tokio::time::advance(Duration::from_micros(300)).await;
                             let mut fut = Box::pin($fut);
                             let mut cx = Context::from_waker(&waker);
                             loop {
